@@ -1180,4 +1180,14 @@ example : exTf.frameNumber 2 0 2 0 = 29 ∧
     (pixToPixForImages { exTiled with frameOfReference := some "1.2.3" } { exTiled with frameOfReference := some "1.2.3" }
       (some 29) none false true).map (fun a => a.apply ⟨1, 3, 0⟩) = .ok ⟨1, 11, 0⟩ := by decide +kernel
 
+
+/-- … and for image coordinates: `ImageToImageTransformer.for_images(ds, ds, frame → total pixel matrix)` exists and shifts `(x, y)` by the
+same integers `(C − 1, R − 1)` (the half-pixel corrections of both sides cancel) -/
+theorem for_images_frame_to_total_matrix_image {ds : ImageDs} {tf : TiledFull} {P : Plane} {z sbs : Option Rat}
+    (h : TiledSlide ds tf P z sbs) (hP : P.Valid) (hn : P.nrm.dot P.nrm = 1) (u : String) (hu : ds.frameOfReference = some u)
+    (ch tr tc : Nat) (hch : ch < tf.channels) (hpl : 0 < tf.npl) (htr : tr < tf.ntr) (htc : tc < tf.ntc) :
+    ∃ a, imgToImgForImages ds ds (some (tf.frameNumber ch 0 tr tc)) none false true = .ok a ∧
+      ∀ x y : Rat, a.apply ⟨x, y, 0⟩ = ⟨(((tc : Int) * tf.cols : Int) : Rat) + x, (((tr : Int) * tf.rows : Int) : Rat) + y, 0⟩ :=
+  forImages_frame_to_total_image h hP hn u hu ch tr tc hch hpl htr htc
+
 end HdVerif.C10
